@@ -374,6 +374,8 @@ class C14Check(PoolCheckBase):
         key = pick_entry(rng.fork("entry"), pred=lambda e: not e["flags"].get("no14"))
         sc = gen_pool_scenario(rng, key, "C14", max_n=40 if self.tier == "thorough" else 24)
         sc["prefit"] = False  # the *standard* loop: default fit flags (fit_*=False is exercised by C05)
+        if R.ENTRIES[key]["flags"].get("batch1_14"):
+            sc["batch_size"] = 1
         return sc
 
     def execute(self, sc, keep_log=False):
